@@ -16,6 +16,110 @@ CHECKS = {
         "note": "Trusts the reference model and the documented layout of SchemaErrors.failure_cases; 5 recorded known findings are excluded by narrow predicates; report exactness is not scored for duplicated labels / overlapping regex columns / checks run on wrong-dtype data.",
         "technique": "Hypothesis generators + reference model, lazy-vs-eager differential",
     },
+
+    "C03": {
+        "text": "Conforming generated pairs are de-conformed in ways the parsing options repair (re-encoded cells + coerce at column/schema/index level, null + default, removed column + add_missing_columns, extra columns + strict='filter', tightened row constraint + drop_invalid_rows), 1-3 at once; whenever validate returns, the returned object must pass the same spec with every parsing option off (checked with pandera and, independently, with the reference model on the object read back) and re-validation must return it unchanged. Exploration.",
+        "design_ref": "DESIGN.md §2 C03",
+        "note": "strip(S) is rebuilt from the JSON spec; strict='filter' is stripped to strict=True (only declared columns may remain); two drop_invalid_rows known findings excluded by narrow predicates. pandas families; polars parse output is covered differentially by C08.",
+        "technique": "Hypothesis generators + fixpoint/round-trip oracle + reference model",
+    },
+    "C04": {
+        "text": "The same parser-option generator drives DataFrameSchema, SeriesSchema(+Index), standalone Column, Index and MultiIndex component validation (pass, eager fail, lazy fail, inplace on/off) on pandas and DataFrameSchema/Column/DataFrameModel on polars DataFrame and LazyFrame; a full value snapshot of the caller's object before the call must equal the snapshot after it and the returned container kind must equal the input kind. Exploration.",
+        "design_ref": "DESIGN.md §2 C04",
+        "note": "Trusts harness/fp.py:snapshot (cell-wise with NaN==NaN, dtypes, labels, index, name, attrs).",
+        "technique": "Hypothesis generators + before/after snapshot invariant",
+    },
+    "C05": {
+        "text": "Generated operation histories (validate eager/lazy, component validate, coerce, YAML/JSON/script, statistics, strategy/example, repr/eq/copy/deepcopy/pickle, every transforming method, model to_schema/subclass) are interpreted step by step against DataFrameSchema, SeriesSchema and DataFrameModel-backed schemas; after every step the structural fingerprint, equality with a snapshot, every verdict and every observation output must match those of a never-used schema of the same spec; a process-isolated family covers once-per-process registry state. Exploration.",
+        "design_ref": "DESIGN.md §2 C05",
+        "note": "Oracle is history-independence against pandera's own answer on a fresh schema; state is seen through harness.fp (object graph, functions by qualified name). One recorded known finding (Model.to_schema hands out the cached object). Pandas backend only.",
+        "technique": "Hypothesis-generated JSON histories interpreted stepwise (stateful invariant checking) + enumerated subprocess matrix",
+    },
+    "C06": {
+        "text": "inputs: generated schemas x data x options (lazy, head/tail/sample, drop_invalid_rows, every parsing option, non-dataframe arguments) must end in ok / SchemaError (eager) / SchemaErrors (lazy) / a documented usage error, with schema fingerprint, config and caller data unchanged. faults: every user callback (vectorised/element-wise/groupby check fns at column, index and frame level, parser fns, a custom registered dtype's check/coerce) is a counting wrapper; for EVERY invocation index k of the clean run, eager and lazy, an exception is injected at k and the outcome must stay in the documented channel (a raising check must be reported as CHECK_ERROR) and state must equal the state before. Fault enumeration is exhaustive per generated schema; schemas are sampled.",
+        "design_ref": "DESIGN.md §2 C06",
+        "note": "For parser/groupby/dtype callbacks the injected exception itself (or a later user-callback exception caused by it) propagating is accepted; six recorded known findings (drop_invalid_rows family, add_missing coercion, MultiIndex coerce, duplicated labels) are excluded by (exception type, function, trigger) predicates.",
+        "technique": "Hypothesis generators + every-k fault injection through user callbacks, state-before == state-after invariant",
+        "category": "fault_enumeration",
+    },
+    "C07": {
+        "text": "For 2-3 concurrent pandas/polars validate calls (shared or distinct schemas, cold DataFrameModel, user config_context) every call must return or raise exactly what it does alone, and config plus every schema fingerprint must be unchanged afterwards, under every single-preemption interleaving of each listed workload (exhaustive for that layer at pandera call/return granularity), a two-preemption grid and Hypothesis-generated multi-segment schedules. The harness owns the schedule (sys.settrace parked threads).",
+        "design_ref": "DESIGN.md §2 C07",
+        "note": "One thread runs at a time; preemption only at pandera call boundaries (not bytecodes); pandas/polars internals and the polars Rust pool are sequentialised; GIL builds only. Watchdog-stopped executions are inconclusive. One recorded known finding (module-global config context).",
+        "technique": "deterministic schedule enumeration + Hypothesis schedules, differential against the solo run",
+    },
+    "C08": {
+        "text": "A backend-neutral schema spec (int/float/str/bool/datetime, nullable, unique, required, strict, ordered, joint unique, every built-in check incl. generated regular expressions, coerce/default/add_missing_columns) and one table are rendered to pandas and polars; verdicts (eager and lazy), failing cells (column, row position, value) and parsed outputs must agree, and both verdicts must agree with the reference model when no parsing option is on. Exploration.",
+        "design_ref": "DESIGN.md §2 C08",
+        "note": "Frames are built with explicit dtypes on both sides, None for null; regions documented as unsupported on polars are excluded and listed in ASSUMPTIONS; five recorded known findings (add_missing_columns behaviour, unique_values_eq with nulls, pandas null duplicates) excluded by narrow predicates.",
+        "technique": "Hypothesis generators + differential pandas vs polars + reference model",
+    },
+    "C09": {
+        "text": "For the numpy, pandas (incl. pyarrow), polars and pyspark engines every key of the live equivalents tables, every registered and abstract dtype class/instance, documented spellings and all ordered pairs of them (about 3.9e5) are enumerated exhaustively, plus thousands of generated parameterisations and string aliases: resolution to a DataType, idempotence, agreement of the boxed native dtype with what the spelling denotes natively, self-recognition in check, Engine.dtype(str(t)) == t for primitive types; pairs: symmetric ==, equal hashes, no false equivalence, check never crossing kind/signedness/width.",
+        "design_ref": "DESIGN.md §2 C09",
+        "note": "Trusted base is native introspection (numpy dtype.kind/itemsize, pandas extension dtypes, pyarrow.types predicates, polars base_type, Spark typeName). Units of numpy datetimes and byte order not compared. Ten recorded known findings.",
+        "technique": "exhaustive registry/pair enumeration + Hypothesis parameter and string generation against native-library introspection oracles",
+    },
+    "C10": {
+        "text": "For 40 pandas-engine and 31 polars-engine dtype instances Hypothesis draws Series/Index/column containers mixing exactly convertible, unconvertible, null and lossy elements. On success the result must keep length, labels and name, pass the dtype's own check, equal the inputs where conversion is exact, keep nulls and be idempotent; on failure the error must be a ParserError/DATATYPE_COERCION whose failure cases are exactly the unconvertible elements. Exploration.",
+        "design_ref": "DESIGN.md §2 C10",
+        "note": "Trusts the harness's own element classifier (exact/fail only for documented numpy/pandas/polars conversions) and coerce_value / singleton strict casts for lossy elements; null kinds compared as one value. Eight recorded known findings.",
+        "technique": "Hypothesis generators per dtype, own element classifier as oracle, idempotence round trip",
+    },
+    "C11": {
+        "text": "Conforming generated pairs re-tightened by 1-3 row-level constraints (nullable, unique with each report_duplicates, column/index/row-wise frame checks, joint uniqueness) with drop_invalid_rows=True on DataFrameSchema, SeriesSchema and standalone Column over unique indexes of every kind: the result must hold exactly the rows (by position) on which the reference model finds no row-level violation, in order, with unchanged values; a non row-attributable violation must still raise. Exploration.",
+        "design_ref": "DESIGN.md §2 C11",
+        "note": "Unique index only (documented restriction); aggregate checks (unique_values_eq) skipped; four recorded known findings (index positions, non-tabular failure cases, null duplicates, SeriesSchema index).",
+        "technique": "Hypothesis generators + reference model (set of bad rows)",
+    },
+    "C12": {
+        "text": "Schemas built from every serialisable part are written to YAML, JSON and a Python script and read back: the result must be structurally identical to a fresh build (object-graph fingerprint and pandera ==), re-serialise to the same text and give identical lazy verdicts on probe frames. One minimal schema per slot value combination is enumerated completely; the rest is Hypothesis-generated.",
+        "design_ref": "DESIGN.md §2 C12",
+        "note": "Reference = a fresh schema built from the same spec by pandera's constructors; attributes without a slot in the format are outside the claim; four recorded known findings (duplicate check names, datetime statistics, inf).",
+        "technique": "enumeration of slots + Hypothesis round-trip / fixpoint / differential-verdict",
+    },
+    "C13": {
+        "text": "Hypothesis generates schema specs (22 dtypes, check chains of built-in/custom/registered checks, nullable/unique, sizes, Series/Column/Index/MultiIndex/DataFrame with regex columns, index schemas, joint unique, frame-level checks) and takes seeded draws from schema.strategy(size=n); every returned draw must be of the documented container type and pass the same schema's validate; a strategy crash on a schema an independent model shows satisfiable is a violation; a fresh-interpreter family exposes state-dependent strategies.",
+        "design_ref": "DESIGN.md §2 C13",
+        "note": "pandera's own validate is the acceptance oracle; draws go through Hypothesis ConjectureData with a fixed-constants provider; filter exhaustion is 'incomplete', never scored. Five recorded known findings.",
+        "technique": "Hypothesis-generated schemas + seeded strategy draws + self-validation oracle + independent satisfiability model",
+    },
+    "C14": {
+        "text": "For generated pandas frames and Series over every numeric width, bool, str/object, categorical, tz-naive/aware datetime, timedelta and nullable extension dtypes (nulls, empty/all-null columns, dtype limits, +-2**53+-1, inf, Index/MultiIndex): infer_schema must not raise, must accept the object and return identical values, every inferred bound must equal the data's min/max exactly, and the schema must survive YAML/JSON with the same verdict. The kind x cell-pattern x container grid is enumerated exhaustively; frames and series are Hypothesis-generated.",
+        "design_ref": "DESIGN.md §2 C14",
+        "note": "Trusts pandas constructors and Python-level min/max over JSON cells; five recorded known findings (complex bounds, big object ints, tz/sub-second datetime bounds, object MultiIndex level with null).",
+        "technique": "Hypothesis generators + exhaustive grid against a round-trip and exact-statistics oracle",
+    },
+    "C15": {
+        "text": "Generated transformation programs (1-5 requests from add/remove/select/rename/update_column(s)/set_index/reset_index, valid and invalid, with inverse pairs) run on pandas and polars schemas whose components carry every attribute; after each request pandera's result must equal, attribute by attribute and by fingerprint, the schema built from an independently written expected spec, accept the frame transformed by the paired dataframe operation, keep rejecting a frame violating one surviving constraint, and leave the receiver unchanged; invalid requests must raise SchemaInitError/ValueError.",
+        "design_ref": "DESIGN.md §2 C15",
+        "note": "Expected-effect model written from the method docstrings; verdicts from pandera's validate on a deep copy; four recorded known findings (set/reset_index attribute loss and MultiIndex bookkeeping).",
+        "technique": "Hypothesis program generation + constructor-built expected schema (differential) + paired frame operation (metamorphic)",
+    },
+    "C16": {
+        "text": "Generated model class hierarchies (chains, siblings, mixins, diamonds; field/Field/annotation/method overrides; aliases, regex, Optional, Config options, @check/@dataframe_check/@parser, compile order) are exec'd; every class's to_schema() is compared structurally with an object-API schema computed from the spec by ordinary class semantics, again after all relatives are compiled; validate outcomes, outputs and lazy failure cases are compared on three tables, on pandas and polars.",
+        "design_ref": "DESIGN.md §2 C16",
+        "note": "Differential oracle trusting the object-API constructors and validate; check order within a component not compared. All seven defects found were repaired in /repo (see known_findings.json 'fixed').",
+        "technique": "Hypothesis program generation, differential against the object API with a spec-side class-semantics resolver",
+    },
+    "C17": {
+        "text": "For generated function signatures (plain/method/classmethod/staticmethod, sync/async, defaults, *args, keyword-only, **kwargs), decorators (check_input/check_output/check_io/check_types with every getter form), call shapes and validation options, the decorated function is run against an independent reference (inspect.signature.bind + schema.validate per designated slot + the undecorated function): whether the body ran, what it saw at every parameter, the result or exception class, the caller's objects afterwards.",
+        "design_ref": "DESIGN.md §2 C17",
+        "note": "Trusts schema.validate for the data verdict and inspect.signature.bind for binding; one recorded known finding (Union + lazy).",
+        "technique": "Hypothesis-generated programs (source exec'd) + differential reference binding oracle",
+    },
+    "C19": {
+        "text": "Hypothesis-generated data (nulls, empty data, default/unique/duplicated labels), predicates from a total family in scalar and vectorised form, and option values; each case runs 4-9 option variants of the same check (element_wise vs vectorised vs s.map, ignore_na, n_failure_cases, raise_warning, groupby str/list/callable with groups, the seven aliases vs canonical constructors); verdict, failure cases and what the function was shown are compared with a pure-Python reference through Check(...)(data) and schema.validate, on pandas and the polars subset.",
+        "design_ref": "DESIGN.md §2 C19",
+        "note": "ignore_na semantics from the Check docstring and docs/source/checks.md; n_failure_cases: truncation only; five recorded known findings (frame/groupby ignore_na, parser+groupby, duplicate-index reshape, polars ignore_na=True on null-false expressions).",
+        "technique": "Hypothesis metamorphic option variants + pure-Python reference model",
+    },
+    "C20": {
+        "text": "Generated (schema, frame) pairs with non-unique / non-default index labels x head/tail/sample/random_state (incl. 0, overlapping, aimed just inside/outside a violating row): the verdict must equal the reference verdict with row-attributable constraints evaluated on the independently computed selected positions and frame-level constraints on the whole table; the call returns all of D; same random_state => same outcome and report; head=len(D) == no option. Exploration.",
+        "design_ref": "DESIGN.md §2 C20",
+        "note": "Sample positions obtained by sampling a row-id frame with the same random_state (pandas determinism); one recorded known finding (pandas de-duplicates selected rows by label). pandas family.",
+        "technique": "Hypothesis generators + reference model on independently computed row selection (metamorphic)",
+    },
     "C18": {
         "text": "Exhaustive enumeration of all 108 config_context option tuples at nesting depth 1-2 with an exception at every level and of all 108 documented env settings; Hypothesis for depth 3-4 nestings, entry styles, disabled-validation identity over every entry point and (S,D) depth decomposition against the reference model. Exploration: absence is not established beyond the enumerated finite parts.",
         "design_ref": "DESIGN.md §2 C18",
